@@ -208,11 +208,20 @@ pub enum Damage {
     /// the compressed stream is all there, the HTTP framing around it is not: a chunked body without
     /// its final chunk, a Content-Length that announces five more bytes than arrive
     FramingOnly,
+    /// the compressed stream is all there and some bytes follow it inside the frame, which is then cut
+    /// (five bytes short of its Content-Length / no final chunk)
+    JunkThenCut,
+    /// the framing is cut as in FramingOnly, and one read inside the first ten body bytes (the gzip
+    /// member header) fails with a transient error of this kind (0 timed out, 1 would block) before
+    /// the data goes on; the caller reads on
+    FaultThenCut(u8),
 }
 
 #[derive(Clone, Copy, Debug, PartialEq, Eq, Serialize, Deserialize)]
 pub enum ReadMode {
     Const(usize),
+    /// like Const, but the caller reads on after an error (up to four errors)
+    ConstRetry(usize),
     Bytes,
     /// `json()` / `json_utf8()`: only used with the JSON payload; yields the payload bytes again when
     /// the parsed value equals the payload's value
@@ -342,7 +351,12 @@ fn build_wire(c: &Case, s: &Stream) -> (Vec<u8>, Vec<u8>, bool) {
             data[n - 8 + bit / 8] ^= 1 << (bit % 8);
             damaged = true;
         }
-        Damage::FramingOnly => {
+        Damage::FramingOnly | Damage::FaultThenCut(_) => {
+            framing_len = data.len() + 5;
+            damaged = true;
+        }
+        Damage::JunkThenCut => {
+            data.extend_from_slice(b"what follows the compressed stream");
             framing_len = data.len() + 5;
             damaged = true;
         }
@@ -435,6 +449,12 @@ fn run(c: &Case, s: &Stream) -> (Obs, Vec<u8>, bool) {
     if c.keep_open {
         script.end = End::Pause;
     }
+    if let Damage::FaultThenCut(kind) = c.damage {
+        let body_start = script.wire.windows(4).position(|w| w == b"\r\n\r\n").map_or(0, |p| p + 4);
+        // (chunked framing: the first size line comes first; the fault still falls inside the first ten body bytes)
+        let kind = if kind == 0 { FaultKind::TimedOut } else { FaultKind::WouldBlock };
+        script.fault = Some((body_start + if c.framing == Framing::Chunked { 8 } else { 3 }, kind));
+    }
     let _w = World::single(script, false);
     let read = c.read;
     let head_request = c.head_request;
@@ -473,14 +493,20 @@ fn run(c: &Case, s: &Stream) -> (Obs, Vec<u8>, bool) {
                     Err(e) => Obs::Err(vec![], e.to_string()),
                 }
             }
-            ReadMode::Const(k) => {
+            ReadMode::Const(k) | ReadMode::ConstRetry(k) => {
                 let mut out = Vec::new();
                 let mut buf = vec![0u8; k];
+                let mut errors = 0;
                 loop {
                     match resp.read(&mut buf) {
                         Ok(0) => return Obs::Done(out),
                         Ok(n) => out.extend_from_slice(&buf[..n]),
-                        Err(e) => return Obs::Err(out, e.to_string()),
+                        Err(e) => {
+                            errors += 1;
+                            if !matches!(read, ReadMode::ConstRetry(_)) || errors >= 4 {
+                                return Obs::Err(out, e.to_string());
+                            }
+                        }
                     }
                 }
             }
@@ -546,7 +572,7 @@ fn judge(c: &Case, s: &Stream) -> (String, Option<(String, String)>) {
             v(
                 match c.damage {
                     Damage::TrailerFlip(_) => "integrity-failure-read-as-complete",
-                    Damage::FramingOnly => "cut-framing-read-as-complete",
+                    Damage::FramingOnly | Damage::JunkThenCut | Damage::FaultThenCut(_) => "cut-framing-read-as-complete",
                     _ => "truncation-read-as-complete",
                 },
                 format!("the damaged stream was read to a clean end of body ({} bytes delivered, payload {})", b.len(), s.payload.len()),
@@ -705,6 +731,19 @@ fn cases_for(s: &Stream, tier: Tier) -> Vec<Case> {
             }
             for r in reads.iter().copied() {
                 v.push(mk(framing, 0, p.clone(), r, Damage::FramingOnly));
+            }
+        }
+    }
+    // the same with something behind the compressed stream inside the frame, and with a transient read
+    // error inside the first ten body bytes and a caller that reads on
+    for framing in [Framing::Length, Framing::Chunked] {
+        for r in [ReadMode::Const(7), ReadMode::Bytes, ReadMode::ConstRetry(7), ReadMode::ConstRetry(8192)] {
+            v.push(mk(framing, 0, Policy::default(), r, Damage::JunkThenCut));
+            if matches!(r, ReadMode::ConstRetry(_)) && n > 12 {
+                for kind in [0u8, 1] {
+                    v.push(mk(framing, 0, Policy::default(), r, Damage::FaultThenCut(kind)));
+                    v.push(mk(framing, 0, Policy { cuts: vec![], uniform: Some(1) }, r, Damage::FaultThenCut(kind)));
+                }
             }
         }
     }
